@@ -236,6 +236,22 @@ def run(ctx):
 
     version_change_rules(ctx, "R-C06.6")
 
+    # ---- R-C06.11 a batch is applied under the `keyspaces` read lock.  Keyspace creation and deletion register their meta
+    # rows through an lsm-tree ingestion, which draws a seqno and raises the shared visible counter; they take the keyspaces
+    # WRITE lock.  Holding the read lock from the first apply to the publish keeps them from raising the visible seqno past
+    # a batch that is half applied.
+    from .. import locks as L
+    wb11 = ctx.fn("batch::WriteBatch::commit", "R-C06.11")
+    if wb11:
+        lm11 = L.LockModel(ctx)
+        gs = [g for g in lm11.guards(wb11) if g.cls == "keyspaces"]
+        ap = R.apply_blocks(wb11)
+        pub = R.call_blocks(wb11, (R.PUBLISH,))
+        ok = bool(gs) and bool(ap) and bool(pub) and all(A.must_held_at(wb11, gs[0], b)[0] for b in ap + pub)
+        ctx.ob("R-C06.11", wb11, "batch-applied-and-published-under-the-keyspaces-lock", ok,
+               "keyspaces.read() is held at every apply and at the publish" if ok else
+               "WriteBatch::commit applies / publishes without holding the keyspaces read lock: a concurrent keyspace creation or deletion (meta-keyspace ingestion, which raises the shared visible seqno) can complete between two applies — a snapshot opened then sees part of the batch, and more of it later")
+
     # ---- cross-cutting disciplines (rules/discipline.py)
     from .. import discipline as D
     # a commit's batch contains, and applies, every item
